@@ -102,9 +102,18 @@ def auto_discharge(db, fn, site, T, fl, dom, guards):
         if d == 'index':
             tr = T.operand(args[1]) if len(args) > 1 else None
             base = exprtree.show(T.operand(args[0])) if args else ''
-            if isinstance(tr, tuple) and tr[0] == 'agg' and tr[1].startswith('core::ops::range::Range'):
+            if isinstance(tr, tuple) and tr[0] == 'agg' and tr[1].startswith('core::ops::range::Range') and 'finalize' in base:
+                kind = tr[1].split('::')[-1]
                 s_, e_ = tr[3].get('start'), tr[3].get('end')
-                if s_ and e_ and s_[0] == 'val' and e_[0] == 'val' and s_[1] <= e_[1] <= 32 and 'finalize' in base:
+                sv = s_[1] if s_ and s_[0] == 'val' else None
+                ev = e_[1] if e_ and e_[0] == 'val' else None
+                if kind == 'Range' and sv is not None and ev is not None and sv <= ev <= 32:
+                    return 'constant sub-range of a 32-byte digest'
+                if kind == 'RangeFrom' and sv is not None and sv <= 32:
+                    return 'constant suffix of a 32-byte digest'
+                if kind == 'RangeTo' and ev is not None and ev <= 32:
+                    return 'constant prefix of a 32-byte digest'
+                if kind == 'RangeInclusive' and sv is not None and ev is not None and sv <= ev < 32:
                     return 'constant sub-range of a 32-byte digest'
             return None
     return None
